@@ -222,6 +222,7 @@ func goC02sub(c *Ctx, r *Repo) {
 func ruleAccessors(c *Ctx, r *Repo, r1, r2, r3 string) {
 	tp := r.Pkg("template")
 	info := tp.TypesInfo
+	ruleNillable(c, r, r3)
 	const name = "P.Name<(template.Param).Name>()"
 	const ts = "P.TypeString<(template.Param).TypeString>()"
 	lists := []struct{ fn, ranged, elem string }{
@@ -631,4 +632,81 @@ func typesExprOfMake(fd *ast.FuncDecl) string {
 		return true
 	})
 	return out
+}
+
+// ruleNillable: Var.Nillable = nillable(<the variable's type>), and nillable answers true for every
+// kind whose zero value is nil (pointer, map, interface, func, chan, slice), looks through named
+// types, aliases and type parameters, and answers false for basic and struct types (decision table
+// over the type switch / assertions on the argument or on its Underlying()).
+func ruleNillable(c *Ctx, r *Repo, rule string) {
+	tp := r.Pkg("template")
+	info := tp.TypesInfo
+	if fd := FuncDecl(tp, "Var.Nillable"); fd == nil {
+		c.Fail(rule, "Var.Nillable|missing", "template/var.go", "Var.Nillable not found")
+	} else {
+		paths, _ := enumerateFunc(info, fd)
+		ok := len(paths) == 1 && len(paths[0].Ret) == 1 && stripRes(paths[0].Ret[0]) == "template.nillable(RECV.Type())"
+		c.Check(ok, rule, "Var.Nillable", r.Pos(fd.Pos()), "Nillable() = nillable(Type())", "Var.Nillable is not nillable(v.Type())")
+	}
+	fd := FuncDecl(tp, "nillable")
+	if fd == nil {
+		c.Fail(rule, "nillable|missing", "template/var.go", "nillable not found")
+		return
+	}
+	c.Func(funcKey(tp, fd))
+	paths, _ := enumerateFunc(info, fd)
+	// which value is classified: the argument itself or its underlying type
+	subject := ""
+	for _, p := range paths {
+		for _, a := range p.Atoms {
+			e := stripRes(a.Expr)
+			for _, s := range []string{"ARG0.Underlying()", "ARG0"} {
+				if strings.HasPrefix(e, s+".(*types.") && subject == "" {
+					subject = s
+				}
+			}
+		}
+	}
+	if subject == "" {
+		c.Fail(rule, "nillable|table", r.Pos(fd.Pos()), "nillable does not classify its argument by kind")
+		return
+	}
+	for _, p := range paths {
+		for i := range p.Atoms {
+			p.Atoms[i].Expr = stripRes(p.Atoms[i].Expr)
+		}
+	}
+	want := func(kind, ret string, alt ...string) {
+		n, good := 0, true
+		got := ""
+		for _, p := range paths {
+			if !visitConsistent(p, subject, kind) {
+				continue
+			}
+			n++
+			res := ""
+			if p.Exit == "return" && len(p.Ret) == 1 {
+				res = stripRes(p.Ret[0])
+			}
+			okRes := res == ret
+			for _, a := range alt {
+				okRes = okRes || res == a
+			}
+			if !okRes {
+				good, got = false, res
+			}
+		}
+		c.Check(n > 0 && good, rule, "nillable|"+kind, r.Pos(fd.Pos()), "nillable("+kind+") = "+ret, fmt.Sprintf("nillable answers %q for a %s (want %s): the testify template guards the type assertion of a result with a nil test only when Nillable is true, so returning nil for such a result panics (or, the other way round, a non-nillable value is compared with nil and the mock does not compile)", got, kind, ret))
+	}
+	for _, k := range []string{"*types.Pointer", "*types.Map", "*types.Interface", "*types.Signature", "*types.Chan", "*types.Slice"} {
+		want(k, "true")
+	}
+	for _, k := range []string{"*types.Basic", "*types.Struct"} {
+		want(k, "false")
+	}
+	if subject == "ARG0" {
+		for _, k := range []string{"*types.Named", "*types.Alias", "*types.TypeParam"} {
+			want(k, "template.nillable(ARG0.("+k+").Underlying())", "template.nillable(ARG0.Underlying())", "template.nillable(ARG0.("+k+"))")
+		}
+	}
 }
